@@ -22,7 +22,7 @@ try:
 except Exception:
     pass
 
-KNOWN = "Do NOT deliver any of these, they have been delivered before: Entry.dup copying the child map only when it is non-empty (sharing the Dir of empty nodes); ApplyDeviate looking a deviation path up once per path text; the type dictionary's run counter advancing only when typedefs were added; Namespace() letting the outermost augment win; ReadOnly() stopping at an rpc/action input or notification; an own-prefix shortcut in Entry.Find decided by the tree root's prefix; updateCursor testing the index of the last line break with > 0; a dated file of a longer-named module taken for a candidate; the reset of the byNS namespace memo moved below an early return; an empty Write at a line start setting the line state; sync.Pool for the AST builder's seen-map or for the lexer; a memo of includingModule or of Modules.revisions; a memo of checked posix-pattern expressions; flattening an indenting writer that wraps another indenting writer; Find falling back to the cases of a choice when a step names no child; inPattern cleared when a double-quoted string closes; ClearEntryCache keeping grouping expansions; the second choice fix-up pass run only for modules with waiting augments; deviate replace/add type writing through the shared YangType pointer; the AST builder accepting a second occurrence of a single-valued substatement; a typedef over a built-in name (union, identityref) keeping its type from an earlier Process; the containment test of a range done before its parts are sorted; an imported unknown type reported at the module statement; mergedSubmodule not reset by Process; a cache of directory listings in findInDir."
+KNOWN = "Do NOT deliver any of these, they have been delivered before: Entry.dup copying the child map only when it is non-empty (sharing the Dir of empty nodes); ApplyDeviate looking a deviation path up once per path text; the type dictionary's run counter advancing only when typedefs were added; Namespace() letting the outermost augment win; ReadOnly() stopping at an rpc/action input or notification; an own-prefix shortcut in Entry.Find decided by the tree root's prefix; updateCursor testing the index of the last line break with > 0; a dated file of a longer-named module taken for a candidate; the reset of the byNS namespace memo moved below an early return; an empty Write at a line start setting the line state; sync.Pool for the AST builder's seen-map or for the lexer; a memo of includingModule or of Modules.revisions; a memo of checked posix-pattern expressions; flattening an indenting writer that wraps another indenting writer; Find falling back to the cases of a choice when a step names no child; inPattern cleared when a double-quoted string closes; ClearEntryCache keeping grouping expansions; the second choice fix-up pass run only for modules with waiting augments; deviate replace/add type writing through the shared YangType pointer; the AST builder accepting a second occurrence of a single-valued substatement; a typedef over a built-in name (union, identityref) keeping its type from an earlier Process; the containment test of a range done before its parts are sorted; an imported unknown type reported at the module statement; mergedSubmodule not reset by Process; a cache of directory listings in findInDir; lexUnquoted (or lexQString) advancing the column by bytes instead of characters; indent.String/Bytes trimming a trailing copy of the prefix; Number.Equal or ParseDecimal scaling a mantissa without a sound overflow check; the error sort splitting messages at every colon; newLexer rewriting CR LF; a finished identity value list appended wholesale; Entry.Augment repeating its pass and handing back the counts of the last pass; FixChoice wrapping only some kinds; YangRange.Validate taking over the bounds-in-order check after coalescing; a hand-written comparison of enumerations that takes a missing name for zero; a run of punctuation tokens emitted in one lexer step; a GetModule that skips Process; Modules.Parse skipping a text equal in name, revision and position to a loaded one; Current() not taking the latest of the revision statements."
 
 def main():
     prop, wt, out, angle = sys.argv[1], sys.argv[2], sys.argv[3], int(sys.argv[4])
